@@ -79,7 +79,8 @@ CrossPairsK(ek, x, y) == Cardinality({ ij \in (1..Len(x)) \X (1..Len(y)) : Key(e
 \* inputs, built with dependent ranges (no filtered cross product)
 Rec(ek, sq, s2, mk, e, nm, c, ms) ==
     [ek |-> ek, seqs |-> sq, two |-> (s2 # <<>>), seqs2 |-> s2, mk |-> mk, edges |-> e, norm |-> nm, c |-> c, ms |-> ms]
-NormPseudo == { <<FALSE, <<0, 1>> >> } \cup { <<TRUE, c>> : c \in Pseudos }
+\* (a pseudocount given together with normalize = FALSE has no effect: the result is the number of pairs per bin)
+NormPseudo == { <<FALSE, <<0, 1>> >> } \cup { <<TRUE, c>> : c \in Pseudos } \cup { <<FALSE, c>> : c \in Pseudos }
 Seconds(ek) == IF MaxN2 > 0 THEN Colls2(ek, MaxN2) \cup {<<>>} ELSE {<<>>}
 
 Init == /\ \E ek \in ElemKinds : \E sq \in Colls(ek, MaxN) : \E s2 \in Seconds(ek) :
